@@ -27,14 +27,18 @@ open Refine.Gen
 inductive Status
   | failure | null | invalid | div_zero | not_found | implement | increase_limit | ill_conditioned
   | diverge
+  /-- not a C status either: the C has undefined behaviour at this point (signed overflow) -/
+  | undefined
   deriving DecidableEq, Repr, Inhabited
 
 def Status.name : Status → String
   | .failure => "failure" | .null => "null" | .invalid => "invalid" | .div_zero => "div_zero"
   | .not_found => "not_found" | .implement => "implement" | .increase_limit => "increase_limit"
-  | .ill_conditioned => "ill_conditioned" | .diverge => "hang"
+  | .ill_conditioned => "ill_conditioned" | .diverge => "hang" | .undefined => "ub"
 
 abbrev Bytes := List UInt8
+
+deriving instance DecidableEq for Except
 
 /-! ## little-endian words -/
 
@@ -228,18 +232,26 @@ structure Cfg where
   checkProgress : Bool := false
   /-- cell records / geometry records are rejected unless `0 ≤ vertex index < nnode` -/
   checkIndex : Bool := false
+  /-- solb readers: the declared vertex count must be a non-negative `int` and `count × ldim × 8`
+      bytes must be left in the file *before* anything is sized by it -/
+  checkCount : Bool := false
   /-- `malloc` of more than this many bytes returns NULL (the harness runs with this cap) -/
   allocCap : Nat := 2 ^ 30
   deriving DecidableEq, Repr
 
 def Cfg.faithful : Cfg := {}
-def Cfg.fixed : Cfg := { checkProgress := true, checkIndex := true }
+def Cfg.fixed : Cfg := { checkProgress := true, checkIndex := true, checkCount := true }
 
 abbrev P (α : Type) := Bytes → Except Status (α × Bytes)
 
 /-- `fread` of `n` bytes that is checked by the caller: short read → `REF_FAILURE` -/
-def takeN (n : Nat) : P Bytes := fun s =>
-  if n ≤ s.length then .ok (s.take n, s.drop n) else .error .failure
+def takeN : Nat → P Bytes
+  | 0, s => .ok ([], s)
+  | _ + 1, [] => .error .failure
+  | n + 1, b :: s =>
+    match takeN n s with
+    | .ok (a, r) => .ok (b :: a, r)
+    | .error e => .error e
 
 def rdU (k : Nat) : P Nat := fun s =>
   match takeN k s with
@@ -375,14 +387,39 @@ def rdInts (v : Nat) : Nat → P (List Int)
     | .error e => .error e
     | .ok (xs, s) => .ok (x :: xs, s)
 
-/-- one cell record → the `size_per` integers stored by `ref_cell_add`, or its error.
-    `ref_adj_add` rejects a negative vertex with `REF_INVALID`; nothing rejects `≥ nnode`. -/
+/-- `ref_adj_add(ref_adj, node, …)` as far as a reader can observe it: a negative vertex is
+    `REF_INVALID`; a vertex beyond the table makes it grow to `node + 100` entries — computed as
+    `100 + MAX(0, node - orig)` in `int` (overflow = undefined behaviour for vertices within 100 of
+    `INT_MAX`), `realloc`ed (NULL above the allocator cap → `REF_NULL`).  Nothing compares the
+    vertex with the number of vertices. -/
+def adjAdd (cfg : Cfg) (node : Int) : Except Status Unit :=
+  if node < 0 then .error .invalid
+  else if node > 2 ^ 31 - 1 - 100 then .error .undefined
+  else if cfg.allocCap < 4 * (node.toNat + 100) then .error .null
+  else .ok ()
+
+def adjAddAll (cfg : Cfg) : List Int → Except Status Unit
+  | [] => .ok ()
+  | x :: xs =>
+    match adjAdd cfg x with
+    | .error e => .error e
+    | .ok _ => adjAddAll cfg xs
+
+/-- the vertices of one cell record in memory convention: 0-based, pyramids shuffled -/
+def recordNodes (ci : CellInfo) (raw : List Int) : List Int :=
+  let nodes := (raw.take ci.nodePer).map fun x => x - 1
+  if ci.isPyr then permute PyrPerm.importMeshb nodes else nodes
+
+/-- one cell record → the `size_per` integers stored by `ref_cell_add`, or its error
+    (`ref_adj_add` of the vertices in order). -/
 def cellOfRecord (cfg : Cfg) (ci : CellInfo) (nnode : Int) (raw : List Int) : Except Status (List Int) :=
-  let nodes := (raw.take ci.nodePer).map fun x => wrap32 (x - 1)
-  let nodes := if ci.isPyr then permute PyrPerm.importMeshb nodes else nodes
-  if cfg.checkIndex ∧ nodes.any (fun x => decide (x < 0 ∨ nnode ≤ x)) then .error .invalid
-  else if nodes.any (fun x => decide (x < 0)) then .error .invalid
-  else .ok (nodes ++ (if ci.lastId then raw.drop ci.nodePer else []))
+  -- `nodes[node]--` on `INT_MIN` is a signed overflow
+  if (raw.take ci.nodePer).any (fun x => decide (x = -(2 ^ 31 : Int))) then .error .undefined else
+  if cfg.checkIndex ∧ (recordNodes ci raw).any (fun x => decide (x < 0 ∨ nnode ≤ x)) then .error .invalid
+  else
+    match adjAddAll cfg (recordNodes ci raw) with
+    | .error e => .error e
+    | .ok _ => .ok (recordNodes ci raw ++ (if ci.lastId then raw.drop ci.nodePer else []))
 
 def rdCells (cfg : Cfg) (v : Nat) (ci : CellInfo) (nnode : Int) : Nat → P (List (List Int))
   | 0, s => .ok ([], s)
@@ -398,14 +435,16 @@ def rdCells (cfg : Cfg) (v : Nat) (ci : CellInfo) (nnode : Int) : Nat → P (Lis
     | .ok (cs, s) => .ok (c :: cs, s)
 
 /-- `ref_geom_add`: an existing (node,type,id) record only gets its parameters updated -/
-def geomAdd (gs : List GeomRec) (node : Int) (t : Nat) (id : Int) (p0 p1 : UInt64) :
+def geomAdd (cfg : Cfg) (gs : List GeomRec) (node : Int) (t : Nat) (id : Int) (p0 p1 : UInt64) :
     Except Status (List GeomRec) :=
   if gs.any (fun g => g.node == node && g.type == t && g.id == id) then
     .ok (gs.map fun g => if g.node == node && g.type == t && g.id == id then
       { g with p0 := if 0 < t then p0 else g.p0, p1 := if 1 < t then p1 else g.p1 } else g)
-  else if node < 0 then .error .invalid
-  else .ok (gs ++ [{ type := t, id := id, gref := id, node := node,
-                     p0 := if 0 < t then p0 else 0, p1 := if 1 < t then p1 else 0 }])
+  else
+    match adjAdd cfg node with
+    | .error e => .error e
+    | .ok _ => .ok (gs ++ [{ type := t, id := id, gref := id, node := node,
+                             p0 := (if 0 < t then p0 else 0), p1 := (if 1 < t then p1 else 0) }])
 
 def geomSetGref (gs : List GeomRec) (node : Int) (t : Nat) (id : Int) (gref : Int) : List GeomRec :=
   gs.map fun g => if g.node == node && g.type == t && g.id == id then { g with gref := gref } else g
@@ -425,9 +464,10 @@ def rdGeoms (cfg : Cfg) (v : Nat) (t : Nat) (nnode : Int) : Nat → List GeomRec
     match (if 1 < t then rdF64 s else .ok (0, s)) with
     | .error e => .error e
     | .ok (p1, s) =>
-    let node := wrap32 (node - 1)
+    if node = -(2 ^ 31 : Int) then .error .undefined else   -- `node--` overflows
+    let node := node - 1
     if cfg.checkIndex ∧ (node < 0 ∨ nnode ≤ node) then .error .invalid else
-    match geomAdd gs node t id p0 p1 with
+    match geomAdd cfg gs node t id p0 p1 with
     | .error e => .error e
     | .ok gs =>
     match (if 0 < t then rdF64 s else .ok (0, s)) with
@@ -554,5 +594,13 @@ def headerHops (cfg : Cfg) (v : Nat) (bs : Bytes) : Nat → Int → List Int
             if cfg.checkProgress ∧ ¬(next' = 0 ∨ next' > next) then [next]
             else next :: headerHops cfg v bs fuel next'
     else []
+
+/-- bytes of a lower-case hex string (used to write the witness files of C20 readably) -/
+def ofHex (s : String) : Bytes :=
+  let nib (c : Char) : Nat := if c.toNat ≥ 97 then c.toNat - 87 else c.toNat - 48
+  let rec go : List Char → Bytes
+    | a :: b :: r => UInt8.ofNat (16 * nib a + nib b) :: go r
+    | _ => []
+  go s.toList
 
 end Refine.Model.Meshb
